@@ -1,9 +1,11 @@
 #!/bin/bash
-# tools/mut.sh <patch.diff> <prop> [budget_s] [tier]  -- apply a seeded change to /repo, run one check, undo.
+# tools/mut.sh <patch.diff> <prop> [budget_s] [tier]  -- apply a seeded change, run one check, undo.
+# With LAB=<name> (see tools/lab.sh) this happens in the isolated lab copy; otherwise in /repo + /verif in place.
 set -u
-P="$1"; PROP="$2"; B="${3:-20}"; T="${4:-quick}"
-cd /repo || exit 2
-if ! git diff --quiet; then echo "/repo working tree not clean"; exit 2; fi
+P="$(readlink -f "$1")"; PROP="$2"; B="${3:-20}"; T="${4:-quick}"
+if [ -n "${LAB:-}" ]; then R=/tmp/lab/$LAB/repo; V=/tmp/lab/$LAB/verif; /verif/tools/lab.sh sync "$LAB"; else R=/repo; V=/verif; fi
+cd "$R" || exit 2
+if ! git diff --quiet; then echo "$R working tree not clean"; exit 2; fi
 git apply "$P" || { echo "patch does not apply"; exit 2; }
-cd /verif && VERIF_BUDGET_S="$B" ./check "$PROP" "$T" 2>&1 | cut -c1-500 | head -8
-cd /repo && git checkout -- . && git status --short
+cd "$V" && VERIF_BUDGET_S="$B" ./check "$PROP" "$T" 2>&1 | cut -c1-500 | head -${LINES_MAX:-8}
+cd "$R" && git checkout -- . && git status --short -uno
